@@ -55,7 +55,7 @@ def bounds(tier):
 
 def shards(tier):
     out = [("rt", s) for s in seq_shards(SIGMA, 3 if tier == "quick" else 4, prefix_len=2 if tier == "quick" else 2)]
-    out += [("state", 0), ("scope", 0), ("contain", 0)]
+    out += [("state", 0), ("scope", 0), ("contain", 0), ("construction", 0)]
     # texts of middling length over a core alphabet: letter, blank, accented letter, &, %, math, URL, tilde
     out += [("core", s) for s in seq_shards(SIGMA_CORE, 5 if tier == "quick" else 7, min_len=4 if tier == "quick" else 5, prefix_len=2)]
     out += [("big", n) for n in (bigdocs.SIZES_QUICK if tier == "quick" else bigdocs.SIZES_THOROUGH)]
@@ -686,6 +686,80 @@ def check_contain(acc):
                     acc.violation({"oracle": "only_text_values_change", "block": "Preamble", "what": "untouched_parts"}, {"case": case, "observed": repr(out.blocks[2]), "expected": "untouched"})
 
 
+ORDER_PROBES_ENC = ["$x_1$ caf\xe9 & 100% {B} ~", "see http://a.b/c_d and $a+b$", "\xfc\xdf \\ <>"]
+ORDER_PROBES_DEC = ["$x_1$ caf\\'e \\& 100\\% {B}races", "\\url{http://a.b/c_d} and $a+b$", "\\\"u {\\ss} \\textbackslash"]
+ORDER_CONFIGS = [("enc", km, eu) for km in (None, True, False) for eu in (None, True, False)] + [("dec", kb, km) for kb in (None, True, False) for km in (None, True, False)]
+
+_ORDER_SCRIPT = """
+import sys, json
+sys.path.insert(0, sys.argv[1])
+sys.path.insert(0, sys.argv[2])
+import logging; logging.disable(logging.CRITICAL)
+from mc.checks import c18
+print(json.dumps(c18.order_behaviour(json.loads(sys.argv[3]))))
+"""
+
+
+def order_make(cfg):
+    kind, a, b = cfg
+    if kind == "enc":
+        return LatexEncodingMiddleware(keep_math=a, enclose_urls=b, allow_inplace_modification=False)
+    return LatexDecodingMiddleware(keep_braced_groups=a, keep_math_mode=b, allow_inplace_modification=False)
+
+
+def order_behaviour(cfg, m=None):
+    """What the configuration does to the probe texts (field value and @string value)."""
+    m = m if m is not None else order_make(tuple(cfg))
+    out = []
+    for t in ORDER_PROBES_ENC if cfg[0] == "enc" else ORDER_PROBES_DEC:
+        lib = m.transform(Library([Entry("a", "k", [Field("t", t)]), String("s", t)]))
+        out.append([type(b).__name__ + ":" + repr(getattr(b, "value", None) if isinstance(b, String) else (b.fields[0].value if isinstance(b, Entry) and not isinstance(b, ParsingFailedBlock) else None)) for b in lib.blocks])
+    return out
+
+
+def check_construction_order(acc):
+    """What a configuration does must not depend on which configurations were constructed (and used) before it in the
+    process.  Reference: each configuration constructed FIRST in a fresh interpreter of its own; then, in this process,
+    every ordered pair (A constructed and used, then B constructed and judged)."""
+    import json
+    import subprocess
+    import sys
+
+    from .. import REPO
+
+    ref = {}
+    for cfg in ORDER_CONFIGS:
+        try:
+            r = subprocess.run([sys.executable, "-c", _ORDER_SCRIPT, REPO, __import__("os").path.dirname(__import__("os").path.dirname(__import__("os").path.dirname(__import__("os").path.abspath(__file__)))), json.dumps(cfg)], capture_output=True, text=True, timeout=300, env=dict(__import__("os").environ, VERIF_REPO=REPO))
+            if r.returncode != 0:
+                acc.harness_error(f"fresh interpreter for {cfg}: {r.stderr.strip().splitlines()[-1][:200] if r.stderr.strip() else r.returncode}")
+                return
+            ref[cfg] = json.loads(r.stdout)
+        except Exception as e:
+            acc.harness_error(f"fresh interpreter for {cfg}: {e!r}")
+            return
+    for a in ORDER_CONFIGS:
+        for b in ORDER_CONFIGS:
+            if a[0] != b[0]:
+                continue
+            acc.trace(2)
+            acc.case(nontrivial_key=("construction-order", a, b))
+            acc.count("construction_orders")
+            case = {"construction_order": [list(a), list(b)]}
+            try:
+                order_behaviour(a)
+                got = json.loads(json.dumps(order_behaviour(b)))
+            except Exception as ex:
+                acc.exception(ex, case, "construct A, use it, construct B, use it")
+                continue
+            acc.step(("constructed", a), ("then", b), hash(repr(got)))
+            if got != ref[b]:
+                acc.violation(
+                    {"oracle": "behaviour_independent_of_earlier_constructions", "kind": b[0]},
+                    {"case": case, "observed": got, "expected": ref[b]},
+                )
+
+
 def run_shard(shard, tier, acc):
     _ENC.clear()  # long-lived instances within a shard only
     _DEC.clear()
@@ -705,11 +779,15 @@ def run_shard(shard, tier, acc):
         check_big(shard[1], acc)
     elif shard[0] == "scope":
         check_scope(acc)
+    elif shard[0] == "construction":
+        check_construction_order(acc)
     else:
         check_contain(acc)
 
 
 def replay(case, acc):
+    if "construction_order" in case:
+        return check_construction_order(acc)
     if "tokens" in case:
         check_text(tuple(case["tokens"]), acc, opts=[tuple(case["options"])], fresh=True, case=case)
         if not acc.viol:
